@@ -26,6 +26,44 @@ def sh(cmd, cwd=None, timeout=3600):
     return p.returncode, p.stdout
 
 
+def run_checks(patch, checks):
+    rc, out = sh(f"git -C /repo apply {patch}")
+    assert rc == 0, out
+    caught = {}
+    try:
+        for c in checks:
+            rc, out = sh(f"./check {c} --tier quick", cwd=VERIF, timeout=3600)
+            v = [l for l in out.splitlines() if l.startswith("VIOLATION")]
+            summ = [l for l in out.splitlines() if l.startswith(c + " tier=")]
+            kind = "quiet"
+            detail = ""
+            if rc != 0 and v:
+                kind = "no-failing-input-found" if v[0].rstrip().endswith("no-failing-input-found") else "violation-with-input"
+                rp = re.search(r"replay=(\S+)", v[0])
+                if rp and os.path.exists(rp.group(1)):
+                    try:
+                        r = json.load(open(rp.group(1)))
+                        detail = (r.get("required") or r.get("what") or "")[:300]
+                    except Exception:
+                        pass
+            elif rc != 0:
+                kind = f"check-error rc={rc}"
+                detail = out[-300:]
+            caught[c] = {"result": kind, "detail": detail, "summary": summ[-1] if summ else ""}
+            print(c, kind, detail[:120])
+    finally:
+        sh("git -C /repo checkout -- .")
+    return caught
+
+
+def recheck(meta, patch, checks):
+    caught = run_checks(patch, checks)
+    meta.setdefault("checks", {}).update(caught)
+    meta["caught_by"] = sorted(c for c, r in meta["checks"].items() if r["result"].startswith(("violation", "no-failing")))
+    meta["caught_by_target_property"] = meta["property"] in meta["caught_by"]
+    meta.setdefault("rechecked", []).append({"checks": checks, "machinery_commit": sh("git -C /verif rev-parse --short HEAD")[1].strip()})
+
+
 def main():
     src, sid, pid = sys.argv[1], sys.argv[2], sys.argv[3]
     checks = ALL
@@ -34,6 +72,15 @@ def main():
     patch = os.path.join(src, "patch.diff")
     demo = os.path.join(src, "demo.rs")
     meta = {"seed": sid, "property": pid, "source": "fresh sub-agent given only the property text and a scratch worktree"}
+    d_old = os.path.join(VERIF, "seeded", sid, "meta.json")
+    if "--recheck" in sys.argv and os.path.exists(d_old):
+        # already confirmed and kept: run (some of) the checks again with the current machinery and merge the results
+        meta = json.load(open(d_old))
+        patch = os.path.join(VERIF, "seeded", sid, "patch.diff")
+        recheck(meta, patch, checks)
+        json.dump(meta, open(d_old, "w"), indent=1)
+        print("RECHECKED", sid, "caught by", meta["caught_by"])
+        return
     # ---- 1 confirm in a scratch worktree
     if not os.path.isdir(SCRATCH):
         rc, out = sh(f"git -C /repo worktree add -q --detach {SCRATCH} HEAD")
